@@ -128,9 +128,12 @@ class Penalty:
         return res
 
     def zero_curv_res(self, wj, j):
-        # all-zero column: stationarity means w_j minimises the penalty alone
+        # all-zero column: the fixed-point criterion has no step (1 / L_j is infinite).
+        # Stationarity means w_j minimises the penalty alone; the residual is the smaller of
+        # the two natural measures - the distance |w_j| to that minimiser (the fixed point
+        # of an infinite step) and the subgradient violation (gradient units)
         d = self.subdiff_dist_1(wj, 0.0, j)
-        return 0.0 if d == 0 else abs(wj)
+        return 0.0 if d == 0 else min(abs(wj), d)
 
 
 # ---------------------------------------------------------------- separable
@@ -556,7 +559,8 @@ class _Grouped(Penalty):
         for k in range(G):
             idx = self.unit_indices(k)
             if L[k] == 0:
-                res[k] = float(np.linalg.norm(w[idx])) if self.weight_of(k) != 0 else 0.0
+                d = float(self.subdiff_dist(w, np.zeros_like(w))[k])
+                res[k] = min(float(np.linalg.norm(w[idx])), d)      # see Penalty.zero_curv_res
                 continue
             step = 1.0 / L[k]
             res[k] = float(np.linalg.norm(w[idx] - self.prox_group(w[idx] - step * g[idx], step, k)))
@@ -721,7 +725,8 @@ class _Row(Penalty):
         res = np.zeros(W.shape[0])
         for j in range(W.shape[0]):
             if L[j] == 0:
-                res[j] = np.linalg.norm(W[j])
+                d = float(self.subdiff_dist(W, np.zeros_like(W))[j])
+                res[j] = min(float(np.linalg.norm(W[j])), d)        # see Penalty.zero_curv_res
                 continue
             step = 1.0 / L[j]
             cands = self.prox_row_candidates(W[j] - step * np.asarray(G)[j], step, j)
